@@ -54,6 +54,13 @@ pub struct Conf {
     pub hysteresis_x10: u8,
     #[serde(default = "default_spacing")]
     pub min_spacing: u16,
+    /// CHUNK_INDEX_TABLE_MAX_SIZE: once this many chunks are indexed, further shards are registered without
+    /// their chunks (less dedup by design - C11 keeps the default - but files must stay reconstructible)
+    #[serde(default = "default_index_max")]
+    pub chunk_index_max: u32,
+}
+fn default_index_max() -> u32 {
+    64 << 20
 }
 fn default_divisor() -> u8 {
     8
@@ -104,6 +111,7 @@ impl Conf {
         m.insert("HF_XET_MAX_CONCURRENT_UPLOADS".into(), self.max_uploads.max(1).to_string());
         m.insert("HF_XET_MIN_N_CHUNKS_PER_RANGE_HYSTERESIS_FACTOR".into(), format!("{:.1}", self.hysteresis_x10 as f32 / 10.0));
         m.insert("HF_XET_MIN_SPACING_BETWEEN_GLOBAL_DEDUP_QUERIES".into(), self.min_spacing.to_string());
+        m.insert("HF_XET_CHUNK_INDEX_TABLE_MAX_SIZE".into(), self.chunk_index_max.to_string());
         m
     }
     /// the configuration this process actually runs under (read back from the lazy statics)
@@ -123,6 +131,7 @@ impl Conf {
             max_uploads: std::env::var("HF_XET_MAX_CONCURRENT_UPLOADS").ok().and_then(|s| s.parse().ok()).unwrap_or(8),
             hysteresis_x10: std::env::var("HF_XET_MIN_N_CHUNKS_PER_RANGE_HYSTERESIS_FACTOR").ok().and_then(|s| s.parse::<f32>().ok()).map(|v| (v * 10.0) as u8).unwrap_or(5),
             min_spacing: std::env::var("HF_XET_MIN_SPACING_BETWEEN_GLOBAL_DEDUP_QUERIES").ok().and_then(|s| s.parse().ok()).unwrap_or(256),
+            chunk_index_max: (*mdb_shard::constants::CHUNK_INDEX_TABLE_MAX_SIZE).min(u32::MAX as usize) as u32,
         }
     }
 }
@@ -151,9 +160,10 @@ pub fn conf_strategy(frag_bias: bool) -> impl Strategy<Value = Conf> {
             prop_oneof![4 => Just(8u8), 2 => Just(1u8), 2 => Just(2u8)],
             prop_oneof![4 => Just(5u8), 1 => Just(0u8), 1 => Just(10u8)],
             prop_oneof![4 => Just(256u16), 1 => Just(0u16), 1 => Just(1u16)],
+            prop_oneof![5 => Just(64u32 << 20), 1 => Just(4u32), 1 => Just(64u32), 1 => Just(2000u32)],
         ),
     )
-        .prop_map(|(target_log2, max_xorb_bytes_mult, max_xorb_chunks, shard_min_size, ingestion, nranges, min_cpr_x10, global_dedup_modulus, (min_divisor, max_multiplier, max_uploads, hysteresis_x10, min_spacing))| Conf {
+        .prop_map(|(target_log2, max_xorb_bytes_mult, max_xorb_chunks, shard_min_size, ingestion, nranges, min_cpr_x10, global_dedup_modulus, (min_divisor, max_multiplier, max_uploads, hysteresis_x10, min_spacing, chunk_index_max))| Conf {
             target_log2,
             max_xorb_bytes_mult,
             max_xorb_chunks,
@@ -167,6 +177,7 @@ pub fn conf_strategy(frag_bias: bool) -> impl Strategy<Value = Conf> {
             max_uploads,
             hysteresis_x10,
             min_spacing,
+            chunk_index_max,
         })
 }
 
